@@ -36,8 +36,11 @@ def worker_env(cfg):
         env["ASAN_OPTIONS"] = "detect_leaks=0:abort_on_error=1:handle_abort=1:allocator_may_return_null=1:symbolize=1:quarantine_size_mb=32"
         env["UBSAN_OPTIONS"] = "print_stacktrace=1:halt_on_error=1"
         # route Python's own allocations (ctypes buffers) through the sanitizer's malloc so that they get red zones
-        env["PYTHONMALLOC"] = "malloc"
+        if os.environ.get("VF_NO_PYMALLOC") != "1":
+            env["PYTHONMALLOC"] = "malloc"
         env["VF_MALLOC_BUF"] = "1"
+        if os.environ.get("VF_ASAN_EXTRA"):
+            env["ASAN_OPTIONS"] += ":" + os.environ["VF_ASAN_EXTRA"]
     return env
 
 
